@@ -6,12 +6,12 @@ Import RecordSetNotations.
 
 (** Operations that change the structure of the world (the documented list: creating and removing
     entities, adding/removing/exchanging components, changing relation targets, their batch
-    forms, Reset). *)
+    forms, Reset, and Shrink, which frees and reallocates tables). *)
 Definition structural (o : op) : bool :=
   match o with
   | ONewEntity | OUNew _ | OUNewRel _ _ | ONewEntities _ _ | OCopy _ | OUAdd _ _ | OUAddRel _ _ _
   | OURemove _ _ | OUExchange _ _ _ _ | OUSetRel _ _ | ORemoveEntity _ | ORemoveEntities _ _ _
-  | OReset | ONewBatch _ _ _ _ _ | OExchangeBatch _ _ _ _ _ _ | OSetRelBatch _ _ _ _ => true
+  | OReset | OShrink _ | ONewBatch _ _ _ _ _ | OExchangeBatch _ _ _ _ _ _ | OSetRelBatch _ _ _ _ => true
   | _ => false
   end.
 
@@ -112,6 +112,8 @@ Lemma blocked_w_set_relations_batch f br rels : blocked (w_set_relations_batch f
 Proof. unfold w_set_relations_batch. apply blocked_check. Qed.
 Lemma blocked_w_reset : blocked w_reset.
 Proof. unfold w_reset. apply blocked_check. Qed.
+Lemma blocked_w_shrink b : blocked (w_shrink b).
+Proof. unfold w_shrink. apply blocked_check. Qed.
 
 (** The world-level statement: on a locked world every structural operation, through every API
     path of the model, fails and leaves the complete state (entities, components, values,
@@ -166,6 +168,7 @@ Proof.
     apply blocked_after_readonly; [apply readonly_batch_rels | intros br'].
     apply blocked_bind_first, blocked_w_remove_entities.
   - (* Reset *) apply blocked_bind_first, blocked_w_reset.
+  - (* Shrink *) apply blocked_bind_first, blocked_w_shrink.
   - (* NewBatch *)
     apply blocked_after_readonly; [apply readonly_resolveR | intros rels'].
     apply blocked_bind_first, blocked_w_new_batch.
